@@ -590,9 +590,12 @@ class ExperimentPackage(StorageStructurePathResolver):
                 for targetFolder in manifest:
                     sourceFolder = manifest[targetFolder]
 
-                    if os.path.isabs(targetFolder):
-                        raise ValueError("Manifest entry %s (%s) should not be an absolute path" % (
-                            targetFolder, sourceFolder))
+                    if os.path.isabs(targetFolder) or \
+                            os.path.normpath(targetFolder).split(os.path.sep)[0] == os.path.pardir:
+                        # VV: the manifest may only create entries beneath the new instance directory
+                        raise experiment.model.errors.PackageCreateError(
+                            ValueError("Manifest entry %s (%s) should be a path inside the instance directory" % (
+                                targetFolder, sourceFolder)), targetPath, path)
 
                     sourceFolder, method = sourceFolder.rsplit(':', 1)
                     target_folder_path = os.path.join(targetPath, targetFolder)
